@@ -284,9 +284,11 @@ std::string guarded(F f, bool safetyOnly){
 }
 
 // scalar readers Data<int>, Data<unsigned int>, Data<double>
+static bool g_prefill = false;
+template<class T> void prefill1(shark::Data<T>& d){ if(g_prefill) shark::csvStringToData(d, "7 8 9 10 11", ',', '#', 2); }
 template<class T>
 std::string runCsv1(std::string const& bytes, char comment, std::size_t maxB, bool safetyOnly){
-	shark::Data<T> data;
+	shark::Data<T> data; prefill1(data);
 	std::string e = guarded([&]{ shark::csvStringToData(data, bytes, ',', comment, maxB); }, safetyOnly);
 	if(!e.empty()) return e;
 	std::ostringstream os, vals; std::size_t n = 0;
@@ -331,9 +333,15 @@ static std::string dropTitle(std::string const& bytes, std::size_t k){
 	for(; k; --k){ std::size_t nl = bytes.find('\n', pos); if(nl == std::string::npos) return ""; pos = nl + 1; }
 	return bytes.substr(pos);
 }
+// `reuse <op>`: the dataset object already holds (differently shaped) data when the importer is called
+template<class D> void prefillU(D& d){ if(g_prefill){ shark::csvStringToData(d, "7,8,9\n10,11,12\n13,14,15\n", ',', '#', 2); } }
+template<class D> void prefillC(D& d){ if(g_prefill){ shark::csvStringToData(d, "3,7,8,9\n0,11,12,1\n5,1,1,1\n", shark::FIRST_COLUMN, ',', '#', 2); } }
+template<class D> void prefillR(D& d){ if(g_prefill){ shark::csvStringToData(d, "3,7,8,9\n0,11,12,1\n5,1,1,1\n", shark::FIRST_COLUMN, 2, ',', '#', 2); } }
+template<class D> void prefillS(D& d){ if(g_prefill){ std::istringstream in("3 1:5 7:1\n0 2:1\n1 9:2\n"); shark::importSparseData(d, in, 0, 2); } }
+
 template<class D>
 std::string runCsvU(std::string const& bytes, char sep, char comment, std::size_t maxB, bool safetyOnly, bool viaFile = false, std::size_t title = 0){
-	D data;
+	D data; prefillU(data);
 	std::string e = guarded([&]{
 		if(viaFile) withFile(bytes, [&](std::string const& fn){ shark::importCSV(data, fn, sep, comment, maxB, title); });
 		else shark::csvStringToData(data, bytes, sep, comment, maxB);
@@ -346,7 +354,7 @@ std::string runCsvU(std::string const& bytes, char sep, char comment, std::size_
 }
 template<class D>
 std::string runCsvC(std::string const& bytes, shark::LabelPosition lp, char sep, char comment, std::size_t maxB, bool safetyOnly, bool viaFile = false){
-	D data;
+	D data; prefillC(data);
 	std::string e = guarded([&]{
 		if(viaFile) withFile(bytes, [&](std::string const& fn){ shark::importCSV(data, fn, lp, sep, comment, maxB); });
 		else shark::csvStringToData(data, bytes, lp, sep, comment, maxB);
@@ -359,7 +367,7 @@ std::string runCsvC(std::string const& bytes, shark::LabelPosition lp, char sep,
 }
 template<class D>
 std::string runCsvR(std::string const& bytes, shark::LabelPosition lp, std::size_t nout, char sep, char comment, std::size_t maxB, bool safetyOnly, bool viaFile = false){
-	D data;
+	D data; prefillR(data);
 	std::string e = guarded([&]{
 		if(viaFile) withFile(bytes, [&](std::string const& fn){ shark::importCSV(data, fn, lp, nout, sep, comment, maxB); });
 		else shark::csvStringToData(data, bytes, lp, nout, sep, comment, maxB);
@@ -373,7 +381,7 @@ std::string runCsvR(std::string const& bytes, shark::LabelPosition lp, std::size
 
 template<class D>
 std::string runSvm(std::string const& bytes, unsigned int dims, std::size_t bs, bool safetyOnly, bool viaFile = false){
-	D data;
+	D data; prefillS(data);
 	std::string e = guarded([&]{
 		if(viaFile){
 			std::string fn = tmpFile(); g_limit = false; writeFile(fn, bytes); g_limit = true;
@@ -687,6 +695,8 @@ int main(int argc, char** argv){
 	while(std::getline(std::cin, line)){
 		std::vector<std::string> t = vh::tokens(line);
 		if(t.empty()){ std::cout << "\n"; continue; }
+		g_prefill = false;
+		if(t[0] == "reuse"){ g_prefill = true; t.erase(t.begin()); if(t.empty()){ std::cout << "bad-op\n"; continue; } }
 		std::string out = "bad-op";
 		alarm(20);
 		if((t[0] == "svm" || t[0] == "svmf") && t.size() == 8){
